@@ -79,8 +79,100 @@ func sampleReplay(in io.Reader, raw bool, args []string) (*Summary, error) {
 				sampleRun(sum, c, &sc, m.s, m.o, rng, mi > 0 && !sc.Init.Sorted)
 			}()
 		}
+		func() {
+			defer func() {
+				if r := recover(); r != nil {
+					sum.viol("panic", c, "awkward map: panic: %v", r)
+				}
+			}()
+			sampleAwkward(sum, c, &sc, rng)
+		}()
 	})
 	return sum, err
+}
+
+// sampleAwkward: the order-based clauses of Quantile under monotone, non-affine value maps onto floats whose sums and
+// products round (123.456, multiples of 0.1 and 1/3, 1e-7 scale).  The type-8 value is not equivariant under such maps,
+// but its bracket is: the quantile lies between the images of the two neighbouring sample values of the exact
+// (specification) quantile, equals the image exactly where those coincide (ties, exact hits, weighted samples), stays
+// inside [min, max] and is non-decreasing in q - all without any tolerance.
+func sampleAwkward(sum *Summary, c json.RawMessage, sc *sCase, rng *rand.Rand) {
+	n := len(sc.Init.Xs)
+	if n == 0 || len(sc.Objs) == 0 {
+		return
+	}
+	so := sc.Objs[0] // same bag as the initial sample (Sort and Copy preserve it)
+	for ai, aw := range []struct{ base, step float64 }{{123.456, 0.1}, {-0.3, 1 / 3.0}, {1e-7, 1.1e-7}} {
+		f := func(v int64) float64 { return aw.base + aw.step*float64(v) }
+		x := &stats.Sample{Xs: make([]float64, n), Sorted: sc.Init.Sorted}
+		if sc.Init.Weighted {
+			x.Weights = make([]float64, n)
+		}
+		idx := rng.Perm(n)
+		if sc.Init.Sorted {
+			for i := range idx {
+				idx[i] = i
+			}
+		}
+		var live []int64
+		for k, i := range idx {
+			x.Xs[k] = f(sc.Init.Xs[i])
+			if sc.Init.Weighted {
+				x.Weights[k] = float64(sc.Init.Ws[i])
+				if sc.Init.Ws[i] > 0 {
+					live = append(live, sc.Init.Xs[i])
+				}
+			} else {
+				live = append(live, sc.Init.Xs[i])
+			}
+		}
+		if len(live) == 0 {
+			continue
+		}
+		type qr struct{ q, r float64 }
+		var results []qr
+		for _, qq := range so.Qs {
+			q := float64(qq.Q[0]) / float64(qq.Q[1])
+			got := x.Quantile(q)
+			sum.Checks++
+			ok := false
+			var lo, hi float64
+			for _, alt := range qq.R {
+				if alt.NaN {
+					ok = ok || math.IsNaN(got)
+					continue
+				}
+				v := big.NewRat(alt.V[0], alt.V[1])
+				below, above := int64(math.MinInt64), int64(math.MaxInt64)
+				for _, s := range live {
+					sr := big.NewRat(s, 1)
+					if sr.Cmp(v) <= 0 && s > below {
+						below = s
+					}
+					if sr.Cmp(v) >= 0 && s < above {
+						above = s
+					}
+				}
+				if below == math.MinInt64 || above == math.MaxInt64 {
+					continue
+				}
+				lo, hi = f(below), f(above)
+				if lo <= got && got <= hi {
+					ok = true
+				}
+			}
+			if !ok {
+				sum.viol("Quantile-bracket", c, "awkward map %d (x -> %v + %v x) weighted=%v: Quantile(%d/%d)=%.17g lies outside the images [%.17g, %.17g] of the neighbouring sample values", ai, aw.base, aw.step, sc.Init.Weighted, qq.Q[0], qq.Q[1], got, lo, hi)
+			}
+			results = append(results, qr{q, got})
+		}
+		sort.Slice(results, func(a, b int) bool { return results[a].q < results[b].q })
+		for k := 1; k < len(results); k++ {
+			if results[k].r < results[k-1].r {
+				sum.viol("Quantile-monotone", c, "awkward map %d: Quantile(%v)=%.17g < Quantile(%v)=%.17g", ai, results[k].q, results[k].r, results[k-1].q, results[k-1].r)
+			}
+		}
+	}
 }
 
 func ptr(x []float64) uintptr {
@@ -463,6 +555,24 @@ func sampleRecord(out io.Writer, args []string) error {
 			switch r := rng.Intn(12); {
 			case r == 0 && len(objs) < 4:
 				newObj()
+			case r == 3 && !s.Sorted && len(s.Xs) > 0:
+				// the caller overwrites values in place (same backing array, same length): later queries must see the new data
+				for t := 1 + rng.Intn(3); t > 0; t-- {
+					j := rng.Intn(len(s.Xs))
+					lo, hi := s.Xs[0], s.Xs[0]
+					for _, v := range s.Xs {
+						lo, hi = math.Min(lo, v), math.Max(hi, v)
+					}
+					switch rng.Intn(3) {
+					case 0:
+						s.Xs[j] = hi + float64(1+rng.Intn(50))
+					case 1:
+						s.Xs[j] = lo - float64(1+rng.Intn(50))
+					default:
+						s.Xs[j] = s.Xs[rng.Intn(len(s.Xs))] + float64(rng.Intn(3)-1)
+					}
+				}
+				enc.Encode(sampleEvent{Op: "Poke", I: i + 1, Xs: toInts(s.Xs), Ws: toInts(s.Weights), Seed: *rf.seed, Idx: idx, R: z})
 			case r == 1:
 				px, pw := ptr(s.Xs), ptr(s.Weights)
 				ret := s.Sort()
